@@ -302,7 +302,7 @@ class Run:
         """lake build of the property modules (+driver), forbidden-token grep, axiom audit.
         A failure is recorded as a broken proof obligation (-> failing-input search), not raised."""
         prop_modules = prop_modules or modules
-        targets = list(modules) + (extra_targets or []) + ["driver"]
+        targets = list(modules) + (extra_targets or []) + [f"driver_{self.prop.lower()}"]
         self.checker_cmd = f"cd {LEAN} && lake build {' '.join(targets)} && lake env lean <audit file with #print axioms for every obligation>"
         for m in prop_modules:
             self.obligations += theorem_names(m)
@@ -375,9 +375,11 @@ class Run:
         return rc == 0
 
     def driver(self) -> Driver:
-        exe = LEAN / ".lake/build/bin/driver"
+        # one driver executable per property (imports only this property's handlers)
+        name = f"driver_{self.prop.lower()}"
+        exe = LEAN / f".lake/build/bin/{name}"
         if not exe.exists():
-            rc, out = sh(["lake", "build", "driver"], cwd=LEAN, timeout=3000)
+            rc, out = sh(["lake", "build", name], cwd=LEAN, timeout=3000)
             if rc != 0 or not exe.exists():
                 raise Infra("cannot build lean driver:\n" + out[-2000:])
         self._drv = Driver(exe)
